@@ -24,7 +24,8 @@ def run(tier: str) -> int:
     wd = common.workdir("C04")
     try:
         PC.record_model(rep, wd, 7 if quick else 9, invs=["OpenIffValid", "RecordsValid"], props=(), label="open_checks_model")
-        PC.record_mutants(rep, wd, ["skip_newest_hash_match", "prev_by_index_only", "no_uuid_distinct", "manifest_unchecked"])
+        PC.record_mutants(rep, wd, ["skip_newest_hash_match", "prev_by_index_only", "no_uuid_distinct", "manifest_unchecked",
+                                     "manifest_of_newest_only"])
         jobs = PC.probe_jobs("corruption", 3 if quick else 9, seed, positions=12 if quick else 200, nops=3,
                              all_bytes=False)
         if not quick:
